@@ -22,6 +22,15 @@ Definition state_of_v (v : V) : cstate :=
 Definition v_of_state (s : cstate) : V :=
   VL [VI (s_n s); VL (map v_of_entry (mem s)); VL (map v_of_entry (tab s)); vints (data s)].
 
+(* for states whose data region is larger than [limit] bytes only its length and its Adler-32 sums are printed (marker
+   -1 first): the driver's text protocol is the bottleneck for files of many MiB, not the model *)
+Definition adler (l : list Z) : Z * Z :=
+  fold_left (fun '(a, b) x => let a' := (a + x) mod 65521 in (a', (b + a') mod 65521)) l (1, 0).
+Definition v_of_state_lim (limit : Z) (s : cstate) : V :=
+  if zlength (data s) <=? limit then v_of_state s else
+  let '(a, b) := adler (data s) in
+  VL [VI (s_n s); VL (map v_of_entry (mem s)); VL (map v_of_entry (tab s)); VL [VI (-1); VI (zlength (data s)); VI a; VI b]].
+
 (* block: [ty; fmt; size; payload option (VL [] | VL [VL bytes]); errcode; cdate; mdate] *)
 Definition blk_of_v (v : V) : blk :=
   mkB (vint (vnth 0 v)) (vint (vnth 1 v)) (vint (vnth 2 v))
@@ -98,15 +107,17 @@ Definition acc_of (s : cstate) (tys : list Z) : V :=
       VL (map (fun i => match c_get_index s i with Some e => VL [v_of_entry e] | None => VL [] end)
               [-1; 0; 1; s_n s - 1; s_n s])].
 
-Fixpoint c_run_acc (s : cstate) (ops : list V) (tys : list Z) : list V :=
+Fixpoint c_run_acc (lim : Z) (s : cstate) (ops : list V) (tys : list Z) : list V :=
   match ops with
   | [] => []
   | op :: r => let '(o, s') := c_step s op in
-               VL [VI (outcome_code o); v_of_state s'; acc_of s' tys] :: c_run_acc s' r tys
+               VL [VI (outcome_code o); v_of_state_lim lim s'; acc_of s' tys] :: c_run_acc lim s' r tys
   end.
 
+(* [state; ops; types; (optional) data limit] *)
 Definition run_container_acc (arg : V) : V :=
-  ok (VL (c_run_acc (state_of_v (vnth 0 arg)) (vlist (vnth 1 arg)) (zs_of (vnth 2 arg)))).
+  let lim := match vnth 3 arg with VI z => z | _ => 1000000000000 end in
+  ok (VL (c_run_acc lim (state_of_v (vnth 0 arg)) (vlist (vnth 1 arg)) (zs_of (vnth 2 arg)))).
 
 (* compactb of a parsed file (the C09 statement evaluated on the implementation's own output) *)
 Definition run_compactb (arg : V) : V := ok (vbool (compactb (state_of_v arg))).
